@@ -143,6 +143,12 @@ var scenarios = []scenario{
 		ops:   []scOp{{0, "send", "A"}, {0.1, "disconnect", "A"}, {0.2, "connect", "A"}, {1.0, "send", "A"}},
 		reply: map[string]float64{"r1": 0.1, "r2": 0.1}, end: 3.5, only: []string{"qmap.Get<|3"}, prop: "C06", scale: 4, stall: 0.5,
 		sigs: []string{"two-outstanding"}},
+	// S11f: the requests of 13 clients time out together while the pump is inside the slow cancel callback of the first: the
+	// expiry channel has room for 10; every request must be reported as timed out and the dispatcher must stay alive
+	{name: "s-many-timeouts", server: true, clients: manyClients(13),
+		ops:   manySends(13),
+		reply: manyNever(13), end: 7.0, only: []string{"handler.cancel|1"}, prop: "C07", scale: 4,
+		sigs: []string{"never-concluded"}},
 	{name: "s-two-clients", server: true, clients: []string{"A", "B"},
 		ops:   []scOp{{0, "send", "A"}, {0.05, "send", "B"}, {0.5, "send", "A"}, {0.55, "send", "B"}},
 		reply: map[string]float64{"r1": -1, "r2": 0.1, "r3": 0.1, "r4": 0.1}, end: 3.2},
@@ -170,6 +176,33 @@ func burstReplies() map[string]float64 {
 	for k := 2; k <= 25; k++ {
 		m[fmt.Sprintf("r%d", k)] = 0.05
 	}
+	return m
+}
+
+func manyClients(n int) []string {
+	var r []string
+	for k := 0; k < n; k++ {
+		r = append(r, fmt.Sprintf("M%d", k))
+	}
+	return r
+}
+
+func manySends(n int) []scOp {
+	var ops []scOp
+	for k := 0; k < n; k++ {
+		ops = append(ops, scOp{0.002 * float64(k), "send", fmt.Sprintf("M%d", k)})
+	}
+	// a last request after everything timed out: it is answered
+	ops = append(ops, scOp{5.0, "send", "M0"})
+	return ops
+}
+
+func manyNever(n int) map[string]float64 {
+	m := map[string]float64{}
+	for k := 1; k <= n; k++ {
+		m[fmt.Sprintf("r%d", k)] = -1
+	}
+	m[fmt.Sprintf("r%d", n+1)] = 0.1
 	return m
 }
 
